@@ -77,10 +77,25 @@ def replay_arms(ctx, b, cs):
     return arms
 
 
-EQUIV_LIVE_REPLAY = {
-    # live leaf -> acceptable replay leaf (both insert a fresh MemQueue for the key)
-    'mem::queues::MemQueues::create_queue': 'mem::queues::MemQueues::ack_position',
-}
+MAP_MUT = ('insert', 'remove', 'get_mut', 'iter_mut', 'values_mut', 'drain', 'retain', 'clear', 'entry')
+
+
+def leaf_role(ctx, path):
+    """Role key of a leaf mutator: for bodies that mutate the queue map itself, the set of mutating
+    map primitives they use (so `create_queue` (live) and `ack_position` (replay), which both insert a
+    fresh MemQueue, are comparable without naming them); any other leaf is identified by its path."""
+    bs = ctx.f.by_path.get(path, [])
+    if not bs:
+        return ('path', path)
+    b = bs[0]
+    ms = set()
+    for cs in b.calls:
+        m = re.search(r'HashMap::<std::string::String, mem::queue::MemQueue>::(\w+)', cs.name)
+        if m and m.group(1) in MAP_MUT:
+            ms.add(m.group(1))
+    if ms:
+        return ('map', frozenset(ms))
+    return ('path', path)
 
 
 @rule('LOG2', ['C01'], floor=4, template='sibling-agreement')
@@ -109,7 +124,15 @@ def log2(ctx):
             ctx.bad('kind:%s' % k, where(b0, edge[1]), 'the replay arm of %s applies nothing to memory' % k)
             continue
         lv = live.get(k, set())
-        missing = sorted(x for x in lv if x not in rl and EQUIV_LIVE_REPLAY.get(x) not in rl)
+        rroles = [leaf_role(ctx, x) for x in rl]
+        missing = []
+        for x in sorted(lv):
+            if x in rl:
+                continue
+            rx = leaf_role(ctx, x)
+            if rx[0] == 'map' and any(r[0] == 'map' and rx[1] <= r[1] for r in rroles):
+                continue
+            missing.append(x)
         ctx.check(not missing and bool(lv), 'kind:%s' % k, where(b0, edge[1]), 'replay(%s) reaches the live leaf mutators %s' % (k, sorted(lv)),
                   'replay of %s does not reach the leaf mutator(s) %s used by the live call (live: %s, replay: %s)' % (k, missing, sorted(lv), sorted(rl)))
 
